@@ -585,9 +585,18 @@ namespace pika::util {
         if (pika::detail::section const* sec = get_section("pika.stacks"); nullptr != sec)
         {
             std::string entry = sec->get_entry(entryname, defaultvaluestr);
+            if (entry.empty()) return defaultvalue;
+
             char* endptr = nullptr;
             std::ptrdiff_t val = std::strtoll(entry.c_str(), &endptr, /*base:*/ 0);
-            return endptr != entry.c_str() ? val : defaultvalue;
+            if (endptr == entry.c_str() || *endptr != '\0')
+            {
+                PIKA_THROW_EXCEPTION(pika::error::bad_parameter,
+                    "runtime_configuration::init_stack_size",
+                    "invalid value \"{}\" for pika.stacks.{}, expected the stack size in bytes", entry,
+                    entryname);
+            }
+            return val;
         }
         return defaultvalue;
     }
